@@ -28,6 +28,7 @@ LEVEL_TEXT = (
     "reactions; interior states cover the quadratic homodimer)."
     " Added: trimer networks with the repeated substrate in every argument position, the structure of every "
     "mapped influx / efflux reaction, an unlabelled substrate with a labelled product. "
+    ' Also: one LabelMapper object built again after its maps were changed (all ordered pairs of maps).'
 )
 LEVEL_NOTE = "trusted: the base Model's RHS (C01); mass-action rates so that both sides are multilinear in the isotopomer vectors"
 RULE = (
